@@ -180,6 +180,22 @@ def run(model, rep, tier):
         rep.check(ix == ["rdtype == dns.rdatatype.IXFR"], "R-13.3", qn, where(f, f.node), "is_ixfr = (rdtype == IXFR)", f"is_ixfr computed as {ix}", stmt="is_ixfr")
         th = [stmt_key(n) for n in ast.walk(f.node) if isinstance(n, ast.Assign) and src(n.targets[0]) == "tsig_ctx"]
         rep.check("tsig_ctx = r.tsig_ctx" in th, "R-13.3", qn, where(f, f.node), "the TSIG context is threaded from message to message", "multi-message TSIG context is not carried forward", stmt="tsig-thread")
+    # the wire reader keeps every RR after the first SOA of a transfer message in its own RRset (order matters to the state machine)
+    gs = model.func("dns.message._WireReader._get_section")
+    fu = [n for n in ast.walk(gs.node) if isinstance(n, ast.Assign) and any(src(t) == "force_unique" for t in n.targets)]
+    loop = [n for n in gs.node.body if isinstance(n, ast.For)]
+    okk = len(fu) == 2 and len(loop) == 1
+    if okk:
+        before = [n for n in fu if n.lineno < loop[0].lineno]
+        inside = [n for n in fu if n.lineno >= loop[0].lineno]
+        okk = len(before) == 1 and src(before[0].value) == "self.one_rr_per_rrset" and len(inside) == 1 and src(inside[0].value) == "True"
+        if okk:
+            guards = [n for n in ast.walk(loop[0]) if isinstance(n, ast.If) and any(x is inside[0] for x in n.body)]
+            okk = len(guards) == 1 and set(atoms(normalise_compare(guards[0].test))) == {("self.message.xfr", "truthy", ""), ("rdtype", "==", "dns.rdatatype.SOA")} and normalise_compare(guards[0].test)[0] == "and"
+    rep.check(okk, "R-13.3", gs.qualname, where(gs, gs.node), "force_unique starts as one_rr_per_rrset and is switched on for the rest of the section at the first SOA of an xfr message (never switched off)",
+              "force_unique is recomputed per record: after the first SOA of a transfer message later records can be merged into earlier RRsets, hiding surplus records from the transfer state machine", stmt="force-unique-sticky")
+    fr = [c for c in ast.walk(gs.node) if isinstance(c, ast.Call) and src(c.func) == "self.message.find_rrset"]
+    rep.check(len(fr) == 1 and src(fr[0].args[-1]) == "force_unique", "R-13.3", gs.qualname, where(gs, gs.node), "find_rrset receives force_unique", "find_rrset no longer receives force_unique", stmt="force-unique-used")
     for qn in ("dns.query.inbound_xfr", "dns.asyncquery.inbound_xfr"):
         f = model.func(qn)
         hs = [h for h in ast.walk(f.node) if isinstance(h, ast.ExceptHandler) and h.type is not None and src(h.type).endswith("UseTCP")]
@@ -220,6 +236,8 @@ WITNESSES = [
      "old": "    with dns.xfr.Inbound(txn_manager, rdtype, serial, is_udp) as inbound:\n        done = False", "new": "    inbound = dns.xfr.Inbound(txn_manager, rdtype, serial, is_udp)\n    if True:\n        done = False"},
     {"id": "c13-answers-after-final-ignored", "rule": "R-13.2", "file": "dns/xfr.py", "expect": "fires",
      "old": "            if self.done:\n                raise dns.exception.FormError(\"answers after final SOA\")\n", "new": ""},
+    {"id": "c13-force-unique-per-record", "rule": "R-13.3", "file": "dns/message.py", "expect": "fires",
+     "old": "                if self.message.xfr and rdtype == dns.rdatatype.SOA:\n                    force_unique = True", "new": "                force_unique = self.one_rr_per_rrset or (\n                    self.message.xfr and rdtype == dns.rdatatype.SOA\n                )"},
     {"id": "c13-twin-commit-helper-order", "rule": "R-13.1", "file": "dns/xfr.py", "expect": "silent",
      "old": "        if self.done and self.txn is not None:", "new": "        if self.txn is not None and self.done:"},
 ]
